@@ -264,11 +264,20 @@ def large_batch(case, ctx):
 
     rng = np_rng(ID, case["seed"], "large", case["rep"])
     kind = gen.KINDS[case["rep"] % 3]
-    nv = int(rng.integers(2, 6))
-    am, ph = gen.draw_model(rng, kind, nv, 2, 1, scales=[0.3, 0.8])
+    nv = int(rng.integers(3, 6))
+    am, ph = gen.draw_model(rng, kind, nv, 2, 1, scales=[0.5, 1.0])
     st = gen.make_state(kind, am, ph)
     B = [2 ** 20 // nv + 3, 300007, 2 ** 18 + 1, 2 ** 16 + 5][case["rep"] % 4]
     batch = torch.tensor(rng.integers(0, 2, size=(B, nv)), dtype=torch.double)
+    # rows next to plausible block boundaries (powers of two, 2^20 entries / sites) and at the ends of the batch get distinct
+    # configurations, so that a wrong neighbour there cannot coincide with the right one
+    alt = torch.tensor([(j_ % 2) for j_ in range(nv)], dtype=torch.double)
+    for cut in sorted({2 ** 14, 2 ** 15, 2 ** 16, 2 ** 17, 2 ** 18, 2 ** 19, 2 ** 20 // nv, 2 ** 19 // nv, 2 ** 18 // nv, 10 ** 5, 2 * 10 ** 5}):
+        if 1 <= cut < B:
+            batch[cut - 1] = 0.0
+            batch[cut] = alt
+    batch[0] = 1.0 - alt
+    batch[B - 1] = 1.0
     A = sorted(rng.choice(nv, size=int(rng.integers(1, nv)), replace=False).tolist())
     comp = 1.5 * SWAP(A) - SigmaZ() + 0.25 if case["rep"] % 2 == 0 else 1 - (SWAP(A) + 2 * NeighbourInteraction(c=1)) - SigmaX() * 0.5
     got = ctx.lib("composite.apply(large batch)", comp.apply, st, batch, tags={"rows": B})
